@@ -528,6 +528,9 @@ func (e *kvElection) becomeLeader(token string, rev uint64) {
 	e.healthFailureCount.Store(0)
 
 	e.isLeader.Store(true)
+	// gofail: var verifBecomeLeaderPublishing struct{}
+	// verifYield("becomeLeaderPublishing")
+
 	e.leaderID.Store(e.cfg.InstanceID)
 	e.token.Store(token)
 	e.revision.Store(rev)
